@@ -1494,6 +1494,179 @@ def d6_append(ck, mod):
 
 
 # ---------------------------------------------------------------------------
+# D6 the element type of the flat data is chosen by numpy from the values
+
+_JOIN_CALLS = {'np.append', 'np.concatenate', 'np.hstack', 'np.vstack', 'np.stack', 'np.row_stack'}
+_CONV_CALLS = {'np.array', 'np.asarray', 'np.asanyarray', 'np.ascontiguousarray', 'np.atleast_1d', 'np.require',
+               'np.copy', 'np.ravel', 'np.squeeze', 'list', 'tuple'}
+_TRANSPARENT_METHODS = VIEW_METHODS | {'copy', 'flatten', 'tolist'}
+_OBJECT_DTYPES = {'object', 'np.object_', 'np.object', "'O'", "'object'"}
+_TYPE_NAMES = {'int', 'float', 'bool', 'complex', 'str', 'bytes'}
+
+
+def data_path_casts(cx, e, at, depth=6):
+    """The DATA PATH of expression `e` evaluated at statement `at`: the
+    sub-expressions whose element values end up, value for value, in the value
+    of e - operands of joins (np.append / np.concatenate), of conversions
+    (np.array / np.asarray / .copy() / .reshape ...), elements of displays and
+    comprehensions, arms of conditional expressions, and, for a local name,
+    the value of every definition reaching the use (def-use, so naming or
+    un-naming a sub-expression changes nothing).  Returns (casts, opaque):
+    casts = [(call, dtype expression, statement)] for every conversion on the
+    path that names an element type (`.astype(D)`, `dtype=D`, `.view(D)`);
+    opaque = calls of non-numpy helpers on the path (the rule cannot see
+    whether they convert)."""
+    casts, opaque, seen = [], [], set()
+    fi = cx.fi
+
+    def go(e, at, d):
+        if e is None or d < 0:
+            return
+        if isinstance(e, (ast.List, ast.Tuple, ast.Set)):
+            for x in e.elts:
+                go(x, at, d)
+        elif isinstance(e, ast.Starred):
+            go(e.value, at, d)
+        elif isinstance(e, ast.IfExp):
+            go(e.body, at, d)
+            go(e.orelse, at, d)
+        elif isinstance(e, (ast.ListComp, ast.GeneratorExp, ast.SetComp)):
+            go(e.elt, at, d)
+        elif isinstance(e, ast.Subscript):
+            go(e.value, at, d)
+        elif isinstance(e, ast.Attribute):
+            if e.attr in VIEW_ATTRS:
+                go(e.value, at, d)
+        elif isinstance(e, ast.Call):
+            f, cn = e.func, call_name(e)
+            dt = kwarg(e, 'dtype')
+            if isinstance(f, ast.Attribute) and f.attr == 'astype':
+                D = e.args[0] if e.args else dt
+                if D is not None:
+                    casts.append((e, D, at))
+                go(f.value, at, d)
+            elif isinstance(f, ast.Attribute) and f.attr in _TRANSPARENT_METHODS and not (
+                    isinstance(f.value, ast.Name) and f.value.id == 'np'):
+                if f.attr == 'view' and (e.args or dt is not None):
+                    casts.append((e, e.args[0] if e.args else dt, at))
+                go(f.value, at, d)
+            elif cn in _JOIN_CALLS or cn in _CONV_CALLS:
+                D = dt
+                if D is None and cn in ('np.array', 'np.asarray', 'np.asanyarray') and len(e.args) >= 2:
+                    D = e.args[1]
+                if D is not None:
+                    casts.append((e, D, at))
+                if cn == 'np.append':
+                    go(arg_or_kw(e, 0, 'arr'), at, d)
+                    go(arg_or_kw(e, 1, 'values'), at, d)
+                elif e.args:
+                    go(e.args[0], at, d)
+            elif cn is not None and (cn.startswith('np.') or cn in ('len', 'range', 'sum', 'zip', 'enumerate', 'sorted')):
+                pass            # another numpy/builtin function: a computed value, not a conversion of the operand
+            else:
+                opaque.append(e)
+        elif isinstance(e, ast.Name) and e.id != cx.me and at is not None:
+            for site in fi.rd.defs_at(at, e.id):
+                if site in ('PARAM', 'UNBOUND') or (id(site), e.id) in seen:
+                    continue
+                seen.add((id(site), e.id))
+                if isinstance(site, (ast.For, ast.AsyncFor)):
+                    if e.id in target_names(site.target):
+                        go(site.iter, site, d - 1)
+                    continue
+                v = fi.def_value(site, e.id) if isinstance(site, (ast.Assign, ast.AnnAssign)) else None
+                if v is not None:
+                    go(v, site, d - 1)
+    go(e, at, depth)
+    return casts, opaque
+
+
+def dtype_kind(cx, D, at, depth=4):
+    """What element type a conversion names: 'none' (dtype=None), 'object'
+    (every value is representable), 'own' (the element type the receiver's
+    data had: <receiver...>.dtype, also through a local), 'fixed' (a constant
+    type), 'other' (computed: e.g. np.result_type(...) - may well be lossless)."""
+    if isinstance(D, ast.Constant) and D.value is None:
+        return 'none'
+    if u(D) in _OBJECT_DTYPES:
+        return 'object'
+    if isinstance(D, ast.Constant) and isinstance(D.value, str):
+        return 'fixed'
+    if isinstance(D, ast.Name) and D.id in _TYPE_NAMES and D.id not in cx.params and not assigns_to(cx.fn, D.id):
+        return 'fixed'
+    if isinstance(D, ast.Attribute) and isinstance(D.value, ast.Name) and D.value.id == 'np':
+        return 'fixed'
+    if isinstance(D, ast.Call) and call_name(D) == 'np.dtype' and D.args:
+        return dtype_kind(cx, D.args[0], at, depth)
+    if isinstance(D, ast.Attribute) and D.attr == 'dtype':
+        r = D.value
+        while isinstance(r, (ast.Attribute, ast.Subscript)) or (isinstance(r, ast.Call) and isinstance(r.func, ast.Attribute)
+                                                                and r.func.attr in _TRANSPARENT_METHODS):
+            r = r.func.value if isinstance(r, ast.Call) else r.value
+        if isinstance(r, ast.Name) and r.id == cx.me:
+            return 'own'
+        if at is not None and cx.roots(D.value, at):
+            return 'own'
+        return 'other'
+    if isinstance(D, ast.Name) and depth > 0 and at is not None:
+        defs = cx.fi.rd.defs_at(at, D.id)
+        kinds = set()
+        for site in defs:
+            v = cx.fi.def_value(site, D.id) if isinstance(site, (ast.Assign, ast.AnnAssign)) else None
+            kinds.add(dtype_kind(cx, v, site, depth - 1) if v is not None else 'other')
+        if len(kinds) == 1:
+            return kinds.pop()
+    return 'other'
+
+
+def d6_flat_dtype(ck, mod, writers):
+    """List-of-rows model: a value written into the ragged array reads back
+    as that value.  numpy chooses the element type of a join
+    (np.append / np.concatenate) and of np.array(<rows>) by promotion, so that
+    every operand is representable.  A conversion on the data path of a NEW
+    flat array (`self._data = <E>`) to the element type the object had before,
+    or to a constant type, silently truncates / wraps the incoming values
+    (0.5 -> 0 in an int array, 300 -> 44 in int8, 2 -> True in a bool array);
+    it shows only for operation histories that mix element types."""
+    rule = 'C06.D6.flat-data.cast'
+    n = 0
+    for q, fn in writers:
+        cx = Ctx(mod, fn)
+        for s in cx.fi.cfg.nodes:
+            if not (isinstance(s, ast.Assign) and len(s.targets) == 1 and cx.is_me_attr(s.targets[0], '_data')):
+                continue
+            n += 1
+            casts, opaque = data_path_casts(cx, s.value, s)
+            verdicts = []
+            for c, D, at in casts:
+                k = dtype_kind(cx, D, at)
+                verdicts.append((k, c, D))
+            lossy = [(k, c, D) for k, c, D in verdicts if k in ('own', 'fixed')]
+            unknown = [(k, c, D) for k, c, D in verdicts if k == 'other']
+            con = 'element type of the new flat data (%s.%s = <%s>)' % (cx.me, '_data', (call_name(s.value) or type(s.value).__name__)
+                                                                         if isinstance(s.value, ast.Call) else type(s.value).__name__)
+            if lossy:
+                k, c, D = lossy[0]
+                ck.bad(rule, mod, s, q, con + ' ; conversion %s' % u(c)[:100],
+                       'the values on their way into the flat data are converted to %s (%s): numpy\'s promotion in the join / '
+                       'np.array no longer decides the element type, so values that the old type cannot hold are truncated or wrapped '
+                       '(float rows appended to an int array, wide ints to int8, 2 to a bool array) and every view (rows, flat data, '
+                       'reductions, comparisons) disagrees with the list-of-rows model' % (
+                           'the element type the array had before' if k == 'own' else 'a constant element type', u(D)))
+            elif unknown:
+                k, c, D = unknown[0]
+                ck.missing(rule, '%s L%s: conversion to a computed element type on the way into the flat data (%s): cannot tell whether '
+                           'it holds every incoming value' % (q, getattr(s, 'lineno', '?'), u(c)[:120]))
+            elif opaque:
+                ck.missing(rule, '%s L%s: the new flat data passes through %s, which the rule cannot see through' % (
+                    q, getattr(s, 'lineno', '?'), u(opaque[0])[:100]))
+            else:
+                ck.ok(rule, mod, s, u(s)[:120], 'no conversion to a named element type on the data path: numpy promotes'
+                      + (' (object: every value representable)' if any(k == 'object' for k, _, _ in verdicts) else ''))
+    ck.floor(rule, n, 4, 'definitions of the flat data in the writers')
+
+
+# ---------------------------------------------------------------------------
 # D6 the value probe of __setitem__
 
 def d6_value_probe(ck, mod):
@@ -1608,6 +1781,7 @@ def check(ck):
     ck.floor('C06.D7.row-container', nrc, 4, 'stores into the row container in the writers')
     d5_write_addressing(ck, mod)
     d6_append(ck, mod)
+    d6_flat_dtype(ck, mod, writers)
     d6_value_probe(ck, mod)
     d2_reflected_dispatch(ck, mod)
     # added after the seeding rounds (DESIGN.md 11.2, G5): every instance slot read by
